@@ -727,3 +727,30 @@ def guarded_by_field_true(field):
                 return True
         return False
     return pred
+
+
+def def1(ctx, crate, rid="DEF-1"):
+    """DEF-1: the settings constructor establishes the documented defaults: every boolean option off, both thresholds 1 (the value the documentation and the CLI
+    state, and the smallest value the setters accept)."""
+    cons = [b for b in crate.bodies if b.kind == "assoc_fn" and b.arg_count == 0 and b.sig_output == CONFIG and not b.derived]
+    if not ctx.floor(rid, "argument-less constructors of the settings type", len(cons), 1):
+        return
+    adt = crate.adts.get(CONFIG)
+    names = [f["name"] for f in adt["variants"][0]["fields"]]
+    tys = [norm(f["ty"]) for f in adt["variants"][0]["fields"]]
+    for b in cons:
+        r = local.peel(local.Defs(b).local(0))
+        if not (r[0] == "agg" and r[1] == "adt" and len(r[3]) == len(names)):
+            ctx.undecided(rid, b.path, "the constructor does not return one struct literal", b.loc())
+            continue
+        bad = []
+        for nme, ty, op in zip(names, tys, r[3]):
+            v = local.const_value(local.peel(op))
+            want = False if ty == "bool" else 1
+            if v is None or v != want or (ty == "bool") != isinstance(v, bool):
+                bad.append("%s = %s (documented default: %s)" % (nme, v, want))
+        if bad:
+            ctx.violation(rid, (b.path, "defaults"), "the settings constructor deviates from the documented defaults: %s: every build that does not call the corresponding setter behaves "
+                          "as if the option had been requested" % "; ".join(bad), b.loc())
+        else:
+            ctx.ok(rid, b.path, {"fields": len(names)}, b.loc())
